@@ -1,6 +1,7 @@
 package main
 
 import (
+	"os"
 	"fmt"
 	"regexp"
 	"sort"
@@ -334,6 +335,9 @@ func (u *Unit) finish() {
 				goal = smtImp(p.cond, e.evSpec(iff[0].Text).S)
 			}
 			k := p.why
+			if os.Getenv("VERIF_PANICSITES") == "1" {
+				k += "@" + p.pos // debugging aid: one obligation per panic site
+			}
 			if _, ok := byWhy[k]; !ok {
 				order = append(order, k)
 			}
@@ -840,10 +844,14 @@ func (u *Unit) finishCase() {
 				e.old = u.caseEntry
 				goal = smtImp(p.cond, e.evSpec(iff[0].Text).S)
 			}
-			if _, ok := byWhy[p.why]; !ok {
-				order = append(order, p.why)
+			why := p.why
+			if os.Getenv("VERIF_PANICSITES") == "1" {
+				why += "@" + p.pos // debugging aid: one obligation per panic site
 			}
-			byWhy[p.why] = append(byWhy[p.why], pathImp(p.pc, goal))
+			if _, ok := byWhy[why]; !ok {
+				order = append(order, why)
+			}
+			byWhy[why] = append(byWhy[why], pathImp(p.pc, goal))
 		}
 		for _, k := range order {
 			kind := "nopanic"
